@@ -115,6 +115,70 @@ func runC17P12Fixtures(c *Ctx) {
 	}
 }
 
+// Many key derivations in one process, then the first bundles again: a bundle that opened with its password before a
+// few thousand other (password, salt) pairs went through the key derivation must open with it afterwards, to the same key,
+// and a password that was wrong before must still be wrong. Iteration-count-1 bundles keep this cheap.
+func runC17P12ManyDerivations(c *Ctx) {
+	rep := c.Rep
+	type fast struct {
+		name string
+		pfx  []byte
+		leaf []byte
+		pw   string
+	}
+	var fs []fast
+	for i, fx := range p12FastFixtures {
+		pfx, _ := hex.DecodeString(fx.pfx)
+		leaf, _ := hex.DecodeString(fx.leafDER)
+		fs = append(fs, fast{fx.name, pfx, leaf, fmt.Sprintf("fast-pw-%d", i+1)})
+	}
+	opens := func(f fast, pw string) (bool, string) {
+		var certs []*gx509.Certificate
+		var err error
+		if pi := mon.Guard(func() { _, certs, err = pkcs12.DecodeAll(f.pfx, pw) }); pi != nil {
+			return false, "panic: " + pi.Value
+		}
+		if err != nil {
+			return false, shortErr(err)
+		}
+		for _, x := range certs {
+			if bytes.Equal(x.Raw, f.leaf) {
+				return true, ""
+			}
+		}
+		return false, "decoded, but to other certificates"
+	}
+	var usable []fast
+	for _, f := range fs {
+		if ok, _ := opens(f, f.pw); ok {
+			usable = append(usable, f)
+		}
+	}
+	if len(usable) == 0 {
+		rep.Count("many_derivations_skipped(no usable fixture)", 1)
+		return
+	}
+	n := c.Q(1500, 20000)
+	for i := 0; i < n; i++ {
+		f := usable[i%len(usable)]
+		wp := fmt.Sprintf("not-the-password-%d", i)
+		if ok, _ := opens(f, wp); ok {
+			rep.Violation("C17/pkcs12.DecodeAll/accepts-wrong-password/after-many-derivations", fmt.Sprintf("fixture %s opened with %q", f.name, wp), map[string]interface{}{"fixture": f.name, "attempt": i})
+			return
+		}
+	}
+	for _, f := range usable {
+		if ok, why := opens(f, f.pw); !ok {
+			rep.Violation("C17/pkcs12.DecodeAll/right-password-refused-after-many-other-derivations", fmt.Sprintf("fixture %s, which opened before %d other derivations: %s", f.name, n, why), map[string]interface{}{"fixture": f.name, "derivations_in_between": n})
+		}
+		if ok, _ := opens(f, "not-the-password-0"); ok {
+			rep.Violation("C17/pkcs12.DecodeAll/accepts-wrong-password/after-many-derivations", "fixture "+f.name, map[string]interface{}{"fixture": f.name})
+		}
+	}
+	rep.Count("pkcs12_derivations_between_first_and_second_decode", int64(n))
+	rep.Eval("pkcs12/many-derivations-then-first-bundles-again")
+}
+
 func shortErr(err error) string {
 	if err == nil {
 		return ""
